@@ -175,7 +175,7 @@ theorem fixChild_eq (kvs : List (K × V)) (kids : List (Node K V)) (j : Nat) :
     simp only [fixChild, repairCall_stealRight, repairCall_mergeRight, hasLeftSibling, hasRightSibling, leftSiblingIdx,
       rightSiblingIdx, stealRight, stealLeft, mergeIntoLeft, e2, Bool.and_eq_true, decide_eq_true_eq, Int.ofNat_lt,
       gt_iff_lt, Int.natCast_pos, Nat.lt_irrefl, if_false, Option.isSome_none, Bool.false_eq_true, false_and,
-      Int.lt_irrefl, decide_false]
+      decide_false]
     rfl
 
 /-- postcondition of `fixChild` -/
